@@ -80,7 +80,7 @@ v("C07", "ttl-margin-two-intervals", VA, "minTTL := cfg.HeartbeatInterval * 3", 
 # ---- C08
 v("C08", "notify-without-result", KV, "\tif !e.becomeFollower() {\n\t\treturn\n\t}\n", "\te.becomeFollower()\n", ["C08-R3"], "demote() notifies even if it did not end a term")
 v("C08", "watcher-demotes-silently", W, "e.demote(\"leadership_lost_via_watcher\")", "e.becomeFollower()", ["C08-R2"], "preemption seen by the watcher demotes without OnDemote")
-v("C08", "promote-before-claim", KV, "\te.isLeader.Store(true)\n\te.leaderID.Store(e.cfg.InstanceID)", "\te.leaderID.Store(e.cfg.InstanceID)",
+v("C08", "promote-before-claim", KV, "\te.state.Store(StateLeader)\n\te.isLeader.Store(true)\n", "\te.state.Store(StateLeader)\n",
   ["C08-R1", "C02-R4"], "the claim is never set although OnPromote runs")
 # ---- C09
 v("C09", "untracked-acquisition-round", KV, "\te.wg.Add(1)\n\tgo func() {\n\t\tdefer e.wg.Done()\n\t\te.attemptAcquireWithRetry(ctx)\n\t}()", "\tgo func() {\n\t\te.attemptAcquireWithRetry(ctx)\n\t}()",
@@ -172,6 +172,7 @@ v("C09", "refused-claim-leaves-record", KV, "\t\te.discardUnclaimedRecord(rev)\n
 v("C09", "deletion-on-the-stop-goroutine", KV, "\t\tdeleted := make(chan struct{})\n\t\tgo func() {\n\t\t\tdefer close(deleted)\n\t\t\te.deleteOwnRecord(ctx, termToken)\n\t\t}()\n", "\t\tdeleted := make(chan struct{})\n\t\te.deleteOwnRecord(ctx, termToken)\n\t\tclose(deleted)\n", ["C09-R8"], "StopWithContext reads and deletes on its own goroutine, unbounded")
 v("C09", "ondemote-wait-full-timeout", KV, "\t\t\t\tcase <-time.After(time.Until(deadline)):\n\t\t\t\t\tlog.Warn(\"ondemote_callback_timeout\"", "\t\t\t\tcase <-time.After(timeout):\n\t\t\t\t\tlog.Warn(\"ondemote_callback_timeout\"", ["C09-R8", "C09-R3"], "the wait for OnDemote takes the full time-out again")
 v("C01", "discard-without-shutdown-flag", KV, "\tif !e.deleteKeyOnStop.Load() {\n\t\treturn\n\t}\n\tif err := e.deleteRecordAt(rev); err != nil {", "\tif err := e.deleteRecordAt(rev); err != nil {", ["C01-R6"], "a refused acquisition deletes its record although no shutdown asked for it")
+v("C02", "claim-published-first", KV, "\te.state.Store(StateLeader)\n\te.isLeader.Store(true)\n", "\te.state.Store(StateLeader)\n", ["C02-R5"], "the claim is stored before the term's token and revision", also=[("\te.leaderID.Store(e.cfg.InstanceID)\n\te.token.Store(token)\n", "\te.isLeader.Store(true)\n\te.leaderID.Store(e.cfg.InstanceID)\n\te.token.Store(token)\n")])
 # ---- C19
 v("C19", "demotion-does-not-cancel", KV, "\tif e.termCancel != nil {\n\t\te.termCancel()\n\t\te.termCancel = nil\n\t}\n", "", ["C19-R1"], "demotion no longer cancels the term context")
 v("C19", "promotion-context-from-background", KV, "promoteCtx, cancel := context.WithCancel(termCtx)", "_ = termCtx\n\t\t\tpromoteCtx, cancel := context.WithCancel(context.Background())", ["C19-R1"], "the promotion context is detached from the term")
